@@ -19,11 +19,13 @@ CONSTANTS NK,         \* number of key classes
           Gaps,       \* key classes that are not token positions
           N,          \* instance ids 1..N
           MaxTok,     \* at most this many tokens per instance
+          MaxIdle,    \* at most this many instances without tokens
           Z,          \* zones 1..Z, 0 = no zone
           StateSet,   \* instance states of this universe
           HbSet,      \* heartbeat classes of this universe
           RFMax,      \* replication factors 1..RFMax
-          Canon,      \* TRUE: one representative per renaming of instances and zones
+          Canon,      \* 0: every descriptor; 1: one per renaming of instance ids and zones; 2: moreover
+                      \*    owners numbered by their smallest token (one per renaming of instances)
           WithRemove, \* TRUE: RemoveInstance steps are explored as well
           EmitOn      \* TRUE: print the expected results of every state (one JSON line per descriptor)
 
@@ -31,7 +33,10 @@ Key    == 0..(NK-1)
 TokPos == Key \ Gaps
 Inst   == 1..N
 OpSeq  == <<"Write", "WriteNoExtend", "Read", "Reporting">>
+OpIx   == 1..4
+OpAt(o) == Ops[OpSeq[o]]
 ZASeq  == <<FALSE, TRUE>>
+ZAIx   == 1..2
 RFSet  == 1..RFMax
 
 VARIABLES desc,   \* the ring descriptor
@@ -39,15 +44,35 @@ VARIABLES desc,   \* the ring descriptor
 
 vars == <<desc, out>>
 
-(* TLCEval forces TLC to evaluate the (otherwise lazily re-evaluated) function values once. *)
+(* Result codes for the case emitter.  A lookup result is one integer:     *)
+(* (maxErrors + 2) * 2^N + id mask, 0 = empty ring, 2^N = too few healthy  *)
+(* instances; a replication set:                                           *)
+(* ((maxErrors + 2) * 8 + maxUnavailableZones) * 2^N + id mask.            *)
+Mask(S) == LET f[i \in 0..N] == IF i = 0 THEN 0 ELSE f[i-1] + (IF i \in S THEN 2^(i-1) ELSE 0) IN f[N]
+CodeL(r) == IF r.ok THEN (r.maxErrors + 2) * (2^N) + Mask(r.ids)
+            ELSE IF r.err = "empty" THEN 0 ELSE 2^N
+CodeR(r) == IF r.ok THEN ((r.maxErrors + 2) * 8 + r.maxUnavailableZones) * (2^N) + Mask(r.ids)
+            ELSE IF r.err = "empty" THEN 0 ELSE 8 * (2^N)
+
+(* Everything the specification says about descriptor d:                   *)
+(*   ord[k]             the walk order for key class k                     *)
+(*   res[w][o][z][rf]   the lookup result for walk order w, operation      *)
+(*                      OpSeq[o], zone-awareness ZASeq[z], replication     *)
+(*                      factor rf (keys with the same walk order share it) *)
+(*   rset[o][z][rf]     the ring-wide replication set                      *)
+(* TLCEval forces TLC to evaluate the (otherwise lazily re-evaluated)      *)
+(* function values once.                                                   *)
 Compute(d) ==
-    [look |-> TLCEval([k \in Key |->
-                 LET ord == TLCEval(WalkOrder(NK, d, k))
-                 IN TLCEval([op \in OpNames |-> TLCEval([za \in BOOLEAN |->
-                       LET marks == TLCEval(Marks(d, Ops[op], za, ord))    \* shared by all rf
-                       IN TLCEval([rf \in RFSet |-> ResultOn(d, ord, Ops[op], rf, Pick(ord, marks, rf))])])])]),
-     rset |-> TLCEval([op \in OpNames |-> TLCEval([za \in BOOLEAN |-> TLCEval([rf \in RFSet |->
-                        ReplicationSetFor(d, Ops[op], rf, za)])])])]
+    LET ord == TLCEval([k \in Key |-> TLCEval(WalkOrder(NK, d, k))])
+    IN [ord  |-> ord,
+        res  |-> TLCEval([w \in {ord[k] : k \in Key} |-> TLCEval([o \in OpIx |-> TLCEval([z \in ZAIx |->
+                    LET marks == TLCEval(Marks(d, OpAt(o), ZASeq[z], w))    \* shared by all rf
+                    IN TLCEval([rf \in RFSet |->
+                          LET r == ResultOn(d, w, OpAt(o), rf, Pick(w, marks, rf))
+                          IN [r EXCEPT !.code = CodeL(r)]])])])]),
+        rset |-> TLCEval([o \in OpIx |-> TLCEval([z \in ZAIx |-> TLCEval([rf \in RFSet |->
+                    LET r == ReplicationSetFor(d, OpAt(o), rf, ZASeq[z])
+                    IN [r EXCEPT !.code = CodeR(r)]])])])]
 
 Empty == [i \in {} |-> 0]
 
@@ -55,27 +80,31 @@ Init == /\ desc = Empty
         /\ out = Compute(Empty)
 
 MaxZone(d) == IF DOMAIN d = {} THEN 0 ELSE SetMax({d[i].zone : i \in DOMAIN d})
+Idle(d)    == {i \in DOMAIN d : d[i].toks = {}}
 
 (* Instance x registers with zone z, state s, heartbeat class h and the    *)
-(* (still free) tokens T.  With Canon only one descriptor of every class   *)
-(* of descriptors equal up to renaming instances and zones is built: ids   *)
-(* are handed out in order, owners are numbered by their smallest token,   *)
-(* instances without tokens come last, zone numbers are introduced in      *)
-(* order.  (Neither the specification nor the property depends on names.)  *)
+(* (still free) tokens T.  Neither the specification nor the property      *)
+(* depends on the names of instances and zones, so with Canon >= 1 ids are *)
+(* handed out in order and zone numbers are introduced in order; with      *)
+(* Canon = 2 moreover owners are numbered by their smallest token and      *)
+(* instances without tokens come last.                                     *)
 AddInstance(x, z, s, h, T) ==
     /\ x \notin DOMAIN desc
     /\ T \cap AllTokens(desc) = {}
     /\ Cardinality(T) <= MaxTok
-    /\ Canon => /\ x = Cardinality(DOMAIN desc) + 1
-                /\ z <= 1 + MaxZone(desc)
-                /\ T # {} => \A i \in DOMAIN desc : desc[i].toks # {} /\ SetMin(desc[i].toks) < SetMin(T)
+    /\ T = {} => Cardinality(Idle(desc)) < MaxIdle
+    /\ Canon >= 1 => /\ x = Cardinality(DOMAIN desc) + 1
+                     /\ z <= 1 + MaxZone(desc)
+    /\ Canon >= 2 => (T # {} => \A i \in DOMAIN desc : desc[i].toks # {} /\ SetMin(desc[i].toks) < SetMin(T))
     /\ desc' = [i \in DOMAIN desc \cup {x} |->
                    IF i = x THEN [zone |-> z, state |-> s, hb |-> h, toks |-> T] ELSE desc[i]]
     /\ out' = Compute(desc')
 
+(* Instance x unregisters (with Canon >= 1: the one registered last). *)
 RemoveInstance(x) ==
     /\ WithRemove
     /\ x \in DOMAIN desc
+    /\ Canon >= 1 => x = Cardinality(DOMAIN desc)
     /\ desc' = [i \in DOMAIN desc \ {x} |-> desc[i]]
     /\ out' = Compute(desc')
 
@@ -94,17 +123,20 @@ TypeOK == /\ DOMAIN desc \subseteq Inst
                                     /\ desc[i].toks \subseteq TokPos
           /\ WellFormed(desc)
 
-Cases == Key \X OpNames \X BOOLEAN \X RFSet
-L(c) == out.look[c[1]][c[2]][c[3]][c[4]]
+Walks == DOMAIN out.res
+L(k, o, z, rf) == out.res[out.ord[k]][o][z][rf]
 
-OutIsLookup == out = Compute(desc)   \* only meaningful as a sanity check of the bookkeeping
-
-(* C01 *)
-SizeOK         == \A c \in Cases : SizeOKOn(desc, Ops[c[2]], c[4], c[3], L(c))
-ZoneOK         == \A c \in Cases : ZoneOKOn(desc, Ops[c[2]], c[3], L(c))
-ClockwiseFirst == \A c \in Cases : ClockwiseFirstOn(NK, desc, c[1], Ops[c[2]], c[3], L(c))
-SlackExact     == \A c \in Cases : SlackExactOn(desc, Ops[c[2]], c[4], L(c))
-WalkDefsAgree  == \A c \in Cases : L(c).walked = ReplicaWalkScan(desc, Ops[c[2]], c[4], c[3], WalkOrder(NK, desc, c[1]))
+(* C01.  The statements about a walked set hold for every walk order that  *)
+(* occurs; the statements about where the walk starts for every key class. *)
+SizeOK        == \A w \in Walks, o \in OpIx, z \in ZAIx, rf \in RFSet : SizeOKOn(desc, OpAt(o), rf, ZASeq[z], out.res[w][o][z][rf])
+ZoneOK        == \A w \in Walks, o \in OpIx, z \in ZAIx, rf \in RFSet : ZoneOKOn(desc, OpAt(o), ZASeq[z], out.res[w][o][z][rf])
+SlackExact    == \A w \in Walks, o \in OpIx, z \in ZAIx, rf \in RFSet : SlackExactOn(desc, OpAt(o), rf, out.res[w][o][z][rf])
+WalkDefsAgree == \A w \in Walks, o \in OpIx, z \in ZAIx, rf \in RFSet :
+                    out.res[w][o][z][rf].walked = ReplicaWalkScan(desc, OpAt(o), rf, ZASeq[z], w)
+ClockwiseFirst == \A k \in Key :
+                    LET reach == Reach(NK, desc, k)
+                    IN /\ WalkStartOK(NK, desc, k, out.ord[k])
+                       /\ \A o \in OpIx, z \in ZAIx, rf \in RFSet : NoJumpOn(desc, reach, OpAt(o), ZASeq[z], L(k, o, z, rf))
 
 (* C01, the consequence: a step that registers or removes one instance     *)
 (* changes the result only of lookups whose walked set contained it before *)
@@ -112,34 +144,26 @@ WalkDefsAgree  == \A c \in Cases : L(c).walked = ReplicaWalkScan(desc, Ops[c[2]]
 Observable(r) == <<r.walked, r.ok, r.err, r.ids, r.maxErrors>>
 Disruption ==
     LET changed == (DOMAIN desc' \ DOMAIN desc) \cup (DOMAIN desc \ DOMAIN desc')
-    IN \A c \in Cases :
-          LET a == out.look[c[1]][c[2]][c[3]][c[4]]
-              b == out'.look[c[1]][c[2]][c[3]][c[4]]
+    IN \A k \in Key, o \in OpIx, z \in ZAIx, rf \in RFSet :
+          LET a == out.res[out.ord[k]][o][z][rf]
+              b == out'.res[out'.ord[k]][o][z][rf]
           IN Observable(a) # Observable(b) => changed \cap (a.walked \cup b.walked) # {}
 MinimalDisruption == [][Disruption]_vars
 
 (* C02: with zone-awareness the property presupposes that every instance   *)
-(* carries a zone.                                                         *)
+(* carries a zone.  (o = 1 is Write, o = 3 is Read.)                       *)
 AllZoned == \A i \in DOMAIN desc : desc[i].zone # 0
 QuorumIntersection ==
-    \A za \in BOOLEAN, rf \in RFSet :
-       (za => AllZoned) =>
-          LET r == out.rset["Read"][za][rf]
+    \A z \in ZAIx, rf \in RFSet :
+       (ZASeq[z] => AllZoned) =>
+          LET r == out.rset[3][z][rf]
           IN r.ok => LET RB == ReadAnswerSets(desc, r)
-                     IN \A k \in Key :
-                           LET w == out.look[k]["Write"][za][rf]
-                           IN w.ok => \A A \in WriteAckSets(w), B \in RB : A \cap B # {}
+                     IN \A w \in Walks :
+                           LET wr == out.res[w][1][z][rf]
+                           IN wr.ok => \A A \in WriteAckSets(wr), B \in RB : A \cap B # {}
 
 ----------------------------------------------------------------------------
-(* Case emitter: one JSON line per descriptor.  A result is one integer:   *)
-(* (maxErrors + 2) * 2^N + id mask, 0 = empty ring, 2^N = too few healthy  *)
-(* instances; a replication set: ((maxErrors + 2) * 8 + maxUnavailableZones) * 2^N + id mask. *)
-Mask(S) == LET f[i \in 0..N] == IF i = 0 THEN 0 ELSE f[i-1] + (IF i \in S THEN 2^(i-1) ELSE 0) IN f[N]
-CodeL(r) == IF r.ok THEN (r.maxErrors + 2) * (2^N) + Mask(r.ids)
-            ELSE IF r.err = "empty" THEN 0 ELSE 2^N
-CodeR(r) == IF r.ok THEN ((r.maxErrors + 2) * 8 + r.maxUnavailableZones) * (2^N) + Mask(r.ids)
-            ELSE IF r.err = "empty" THEN 0 ELSE 8 * (2^N)
-
+(* Case emitter: one JSON line per descriptor. *)
 Emit == EmitOn =>
     PrintT(ToJson(
       [ids   |-> [i \in 1..N |-> IF i \in DOMAIN desc THEN 1 ELSE 0],
@@ -147,9 +171,7 @@ Emit == EmitOn =>
        state |-> [i \in 1..N |-> IF i \in DOMAIN desc THEN desc[i].state ELSE ""],
        hb    |-> [i \in 1..N |-> IF i \in DOMAIN desc THEN desc[i].hb ELSE ""],
        toks  |-> [i \in 1..N |-> IF i \in DOMAIN desc THEN desc[i].toks ELSE {}],
-       look  |-> [k \in 1..NK |-> [o \in 1..4 |-> [z \in 1..2 |-> [rf \in 1..RFMax |->
-                     CodeL(out.look[k-1][OpSeq[o]][ZASeq[z]][rf])]]]],
-       rset  |-> [o \in 1..4 |-> [z \in 1..2 |-> [rf \in 1..RFMax |->
-                     CodeR(out.rset[OpSeq[o]][ZASeq[z]][rf])]]],
-       nt    |-> Cardinality({c \in Cases : ~L(c).plain})]))
+       look  |-> [k \in 1..NK |-> [o \in OpIx |-> [z \in ZAIx |-> [rf \in RFSet |-> L(k-1, o, z, rf).code]]]],
+       rset  |-> [o \in OpIx |-> [z \in ZAIx |-> [rf \in RFSet |-> out.rset[o][z][rf].code]]],
+       nt    |-> Cardinality({c \in Key \X OpIx \X ZAIx \X RFSet : ~L(c[1], c[2], c[3], c[4]).plain})]))
 =============================================================================
